@@ -35,6 +35,7 @@ type Engine struct {
 	// per function under verification
 	initHeaps   map[string]string
 	ghostHeaps  map[string]string // ghost state name -> sort
+	carried     map[string][]carriedGhost
 	trivial     []*Check
 	paths       []*pathResult
 	unsupp      []string
